@@ -35,11 +35,11 @@ def plan(tier, seed):
     for ci, ctx in enumerate(ctxs):
         recipes.append({"k": "exprs", "nops": 1, "start": 0, "count": n1, "render": "min", "ctx": ctx, "seed": seed})
         for bi, s in enumerate(range(0, n2, BATCH)):
-            if tier == "quick" and (bi + ci + seed) % 3:
+            if tier == "quick" and (bi + ci + seed) % 2:
                 continue
             recipes.append({"k": "exprs", "nops": 2, "start": s, "count": BATCH, "render": "min" if (bi + ci) % 2 else "rand",
                             "ctx": ctx, "seed": seed + s})
-    nrand = 120 if tier == "quick" else 3000
+    nrand = 400 if tier == "quick" else 3000
     for i in range(nrand):
         recipes.append({"k": "rexprs", "seed": seed * 100003 + i, "count": 60, "depth": 2 + i % 6,
                         "render": ["min", "rand", "full"][i % 3], "ctx": ctxs[i % len(ctxs)] if i % 4 == 0 else "stmt",
